@@ -464,4 +464,298 @@ theorem splitImg_noTag (k : Nat) (s : Bytes) : countTag k (splitImg s) = 0 :=
   splitGo_noTag k s 0 []
 
 
+
+
+/-! ### the runner's tag resolution -/
+
+theorem find_by_id : ∀ (l : List ImgOut) (off k : Nat),
+    (∀ j (hj : j < l.length), (l[j]).id = off + j) → (hk : k < l.length) →
+    l.find? (fun o => decide (o.id = off + k)) = some l[k] := by
+  intro l
+  induction l with
+  | nil => intro off k _ hk; simp at hk
+  | cons a l ih =>
+    intro off k hid hk
+    cases k with
+    | zero =>
+      have := hid 0 (by simp)
+      simp only [List.getElem_cons_zero, Nat.add_zero] at this
+      simp [List.find?, this]
+    | succ k =>
+      have h0 := hid 0 (by simp)
+      simp only [List.getElem_cons_zero, Nat.add_zero] at h0
+      have hne : ¬ (a.id = off + (k + 1)) := by omega
+      simp only [List.find?, hne, decide_false, List.getElem_cons_succ]
+      have := ih (off + 1) k (fun j hj => by
+        have := hid (j + 1) (by simp; omega)
+        simp only [List.getElem_cons_succ] at this
+        omega) (by simp at hk; omega)
+      have e : off + 1 + k = off + (k + 1) := by omega
+      rw [e] at this
+      exact this
+
+theorem resolveTag_of_IdsOk (imgs : List ImgOut) (h : IdsOk imgs) (k : Nat) (hk : k < imgs.length) :
+    resolveTag imgs k = some imgs[k] := by
+  have := find_by_id imgs 0 k (fun j hj => by simpa using h j hj) hk
+  simpa [resolveTag] using this
+
+theorem mem_tagsOf_countTag (k : Nat) : ∀ (c : List Piece), k ∈ tagsOf c → 0 < countTag k c := by
+  intro c
+  induction c with
+  | nil => intro h; simp [tagsOf] at h
+  | cons p r ih =>
+    intro h
+    cases p with
+    | tag j =>
+      simp only [tagsOf, List.filterMap_cons, List.mem_cons] at h
+      rcases h with h | h
+      · subst h; simp [countTag]
+      · have := ih (by simpa [tagsOf] using h)
+        simp only [countTag, List.countP_cons] at this ⊢
+        omega
+    | lit b =>
+      have := ih (by simpa [tagsOf] using h)
+      simp only [countTag, List.countP_cons] at this ⊢
+      omega
+    | slot =>
+      have := ih (by simpa [tagsOf] using h)
+      simp only [countTag, List.countP_cons] at this ⊢
+      omega
+    | mm =>
+      have := ih (by simpa [tagsOf] using h)
+      simp only [countTag, List.countP_cons] at this ⊢
+      omega
+
+theorem resolveTags_all (imgs : List ImgOut) : ∀ (tags : List Nat),
+    (∀ k ∈ tags, ∃ o, resolveTag imgs k = some o) → ∃ l, resolveTags imgs tags = some l ∧ l.length = tags.length := by
+  intro tags
+  induction tags with
+  | nil => intro _; exact ⟨[], rfl, rfl⟩
+  | cons k ks ih =>
+    intro h
+    obtain ⟨o, ho⟩ := h k (by simp)
+    obtain ⟨l, hl, hlen⟩ := ih (fun j hj => h j (by simp [hj]))
+    exact ⟨o :: l, by simp [resolveTags, ho, hl], by simp [hlen]⟩
+
+
+
+
+/-! ### collate and the legacy loop: nothing is lost -/
+
+theorem inf_left {c x : Bytes} (y : Bytes) (h : c <:+: x) : c <:+: y ++ x :=
+  h.trans (List.suffix_append y x).isInfix
+
+theorem inf_right {c x : Bytes} (y : Bytes) (h : c <:+: x) : c <:+: x ++ y :=
+  h.trans (List.prefix_append x y).isInfix
+
+theorem joinSep_infix (sep : Bytes) : ∀ (l : List Bytes) (x : Bytes), x ∈ l → x <:+: joinSep sep l := by
+  intro l
+  induction l with
+  | nil => intro x h; simp at h
+  | cons a l ih =>
+    intro x h
+    cases l with
+    | nil =>
+      simp only [List.mem_cons, List.not_mem_nil, or_false] at h
+      subst h; exact List.infix_refl _
+    | cons b l =>
+      simp only [joinSep]
+      rcases List.mem_cons.mp h with h | h
+      · subst h
+        rw [List.append_assoc]
+        exact (List.prefix_append _ _).isInfix
+      · exact inf_left _ (ih x h)
+
+/-- **collate keeps every system message**: the `.System` string handed to a messages-style
+    template contains the content of every system message of its input -/
+theorem collate_system_infix (msgs : List RMsg) (m : RMsg) (hm : m ∈ msgs) (hr : m.1 = Role.system) :
+    m.2 <:+: (collate msgs).1 := by
+  apply joinSep_infix
+  exact List.mem_map.mpr ⟨m, List.mem_filter.mpr ⟨hm, by simp [hr]⟩, rfl⟩
+
+/-- **collate keeps every message**: each message's content is contained in a merged message of
+    the same role -/
+theorem collateMsgs_infix : ∀ (msgs : List RMsg) (m : RMsg), m ∈ msgs →
+    ∃ g ∈ collateMsgs msgs, g.1 = m.1 ∧ m.2 <:+: g.2 := by
+  intro msgs
+  induction msgs with
+  | nil => intro m h; simp at h
+  | cons a rest ih =>
+    intro m hm
+    obtain ⟨r, c⟩ := a
+    simp only [collateMsgs]
+    rcases List.mem_cons.mp hm with h | h
+    · subst h
+      split
+      · rename_i r' c' tl _
+        split
+        · exact ⟨_, List.mem_cons_self, rfl, by
+            rw [List.append_assoc]; exact (List.prefix_append _ _).isInfix⟩
+        · exact ⟨_, List.mem_cons_self, rfl, List.infix_refl _⟩
+      · exact ⟨_, List.mem_cons_self, rfl, List.infix_refl _⟩
+    · obtain ⟨g, hg, hg1, hg2⟩ := ih m h
+      split
+      · rename_i r' c' tl heq
+        rw [heq] at hg
+        split
+        · rename_i hrr
+          rcases List.mem_cons.mp hg with hg | hg
+          · subst hg
+            exact ⟨_, List.mem_cons_self, by simpa [hrr] using hg1, inf_left _ hg2⟩
+          · exact ⟨g, List.mem_cons_of_mem _ hg, hg1, hg2⟩
+        · exact ⟨g, List.mem_cons_of_mem _ hg, hg1, hg2⟩
+      · rename_i heq
+        rw [heq] at hg
+        simp at hg
+
+/-- the template renders each of the three fields of a turn (an empty field is trivially
+    "rendered"): the hypothesis under which the legacy loop can be said to lose nothing -/
+def Renders (t : List Node) : Prop :=
+  ∀ s p r, ∃ b, execList (legacyRoot s p r) t none = .ok b ∧ s <:+: b ∧ p <:+: b ∧ r <:+: b
+
+/-- `c` has been rendered or is pending in a slot -/
+def Held (st : Legacy) (c : Bytes) : Prop :=
+  (∃ o, st.out = .ok o ∧ c <:+: o) ∨ c <:+: st.sys ∨ c <:+: st.prompt ∨ c <:+: st.resp
+
+def OutOk (st : Legacy) : Prop := ∃ o, st.out = .ok o
+
+theorem flush_inv {t : List Node} (hr : Renders t) {st : Legacy} (ho : OutOk st) :
+    OutOk (legacyFlush t st) ∧ (legacyFlush t st).sys = [] ∧ (legacyFlush t st).prompt = [] ∧
+      (legacyFlush t st).resp = [] ∧
+      ∀ c, Held st c → Held (legacyFlush t st) c := by
+  obtain ⟨o, ho⟩ := ho
+  obtain ⟨b, hb, hs, hp, hre⟩ := hr st.sys st.prompt st.resp
+  have hout : (legacyFlush t st).out = .ok (o ++ b) := by
+    simp [legacyFlush, ho, hb, XOut.append]
+  refine ⟨⟨_, hout⟩, rfl, rfl, rfl, ?_⟩
+  intro c hc
+  left
+  refine ⟨_, hout, ?_⟩
+  rcases hc with ⟨o', ho', hc⟩ | hc | hc | hc
+  · rw [ho] at ho'; injection ho' with ho'; subst ho'
+    exact inf_right _ hc
+  · exact inf_left _ (hc.trans hs)
+  · exact inf_left _ (hc.trans hp)
+  · exact inf_left _ (hc.trans hre)
+
+theorem joinSlot_left (a b : Bytes) : a <:+: joinSlot a b := by
+  unfold joinSlot
+  split
+  · rename_i h
+    have : a = [] := by cases a <;> simp_all
+    subst this; exact List.nil_infix
+  · rw [List.append_assoc]; exact (List.prefix_append _ _).isInfix
+
+theorem joinSlot_right (a b : Bytes) : b <:+: joinSlot a b := by
+  unfold joinSlot
+  split
+  · exact List.infix_refl _
+  · exact (List.suffix_append _ _).isInfix
+
+theorem held_mono {st st' : Legacy} {c : Bytes} (hout : st'.out = st.out)
+    (hs : st.sys <:+: st'.sys) (hp : st.prompt <:+: st'.prompt) (hr : st.resp <:+: st'.resp)
+    (h : Held st c) : Held st' c := by
+  rcases h with ⟨o, ho, hc⟩ | hc | hc | hc
+  · exact Or.inl ⟨o, by rw [hout]; exact ho, hc⟩
+  · exact Or.inr (Or.inl (hc.trans hs))
+  · exact Or.inr (Or.inr (Or.inl (hc.trans hp)))
+  · exact Or.inr (Or.inr (Or.inr (hc.trans hr)))
+
+theorem maybeFlush_inv {t : List Node} (hr : Renders t) {st : Legacy} (ho : OutOk st) (b : Bool) :
+    OutOk (if b then legacyFlush t st else st) ∧
+    ∀ c, Held st c → Held (if b then legacyFlush t st else st) c := by
+  cases b with
+  | false => exact ⟨ho, fun _ h => h⟩
+  | true =>
+    obtain ⟨f1, _, _, _, f5⟩ := flush_inv hr ho
+    exact ⟨f1, f5⟩
+
+def setSys (st : Legacy) (c : Bytes) : Legacy := { st with sys := joinSlot st.sys c }
+def setPrompt (st : Legacy) (c : Bytes) : Legacy := { st with prompt := joinSlot st.prompt c }
+def setResp (st : Legacy) (c : Bytes) : Legacy := { st with resp := joinSlot st.resp c }
+
+theorem legacyStep_join_system (t : List Node) (st : Legacy) (c : Bytes) :
+    legacyStep 2 t st (Role.system, c) =
+      setSys (if (!st.prompt.isEmpty || !st.resp.isEmpty) then legacyFlush t st else st) c := by
+  simp [legacyStep, setSys]
+
+theorem legacyStep_join_user (t : List Node) (st : Legacy) (c : Bytes) :
+    legacyStep 2 t st (Role.user, c) =
+      setPrompt (if (!st.resp.isEmpty) then legacyFlush t st else st) c := by
+  simp [legacyStep, setPrompt]
+
+theorem legacyStep_join_assistant (t : List Node) (st : Legacy) (c : Bytes) :
+    legacyStep 2 t st (Role.assistant, c) = setResp st c := by
+  simp [legacyStep, setResp]
+
+theorem held_setSys (st : Legacy) (c x : Bytes) (h : Held st x) : Held (setSys st c) x :=
+  held_mono (st := st) (st' := setSys st c) rfl (joinSlot_left _ _) (List.infix_refl _) (List.infix_refl _) h
+theorem held_setPrompt (st : Legacy) (c x : Bytes) (h : Held st x) : Held (setPrompt st c) x :=
+  held_mono (st := st) (st' := setPrompt st c) rfl (List.infix_refl _) (joinSlot_left _ _) (List.infix_refl _) h
+theorem held_setResp (st : Legacy) (c x : Bytes) (h : Held st x) : Held (setResp st c) x :=
+  held_mono (st := st) (st' := setResp st c) rfl (List.infix_refl _) (List.infix_refl _) (joinSlot_left _ _) h
+
+/-- one step of the join-repaired loop keeps everything held and holds the new content -/
+theorem step_join_inv {t : List Node} (hr : Renders t) (st : Legacy) (m : RMsg) (ho : OutOk st) :
+    OutOk (legacyStep 2 t st m) ∧ (∀ c, Held st c → Held (legacyStep 2 t st m) c) ∧
+    ((m.1 = Role.system ∨ m.1 = Role.user ∨ m.1 = Role.assistant) → Held (legacyStep 2 t st m) m.2) := by
+  obtain ⟨r, c⟩ := m
+  cases r with
+  | system =>
+    rw [legacyStep_join_system]
+    obtain ⟨f1, f5⟩ := maybeFlush_inv hr ho (!st.prompt.isEmpty || !st.resp.isEmpty)
+    exact ⟨f1, fun x hx => held_setSys _ _ _ (f5 x hx), fun _ => Or.inr (Or.inl (joinSlot_right _ _))⟩
+  | user =>
+    rw [legacyStep_join_user]
+    obtain ⟨f1, f5⟩ := maybeFlush_inv hr ho (!st.resp.isEmpty)
+    exact ⟨f1, fun x hx => held_setPrompt _ _ _ (f5 x hx), fun _ => Or.inr (Or.inr (Or.inl (joinSlot_right _ _)))⟩
+  | assistant =>
+    rw [legacyStep_join_assistant]
+    exact ⟨ho, fun x hx => held_setResp _ _ _ hx, fun _ => Or.inr (Or.inr (Or.inr (joinSlot_right _ _)))⟩
+  | tool => exact ⟨ho, fun _ h => h, fun h => by rcases h with h | h | h <;> cases h⟩
+  | other => exact ⟨ho, fun _ h => h, fun h => by rcases h with h | h | h <;> cases h⟩
+
+theorem fold_join_inv {t : List Node} (hr : Renders t) : ∀ (l : List RMsg) (st : Legacy), OutOk st →
+    OutOk (l.foldl (legacyStep 2 t) st) ∧
+    (∀ c, Held st c → Held (l.foldl (legacyStep 2 t) st) c) ∧
+    (∀ m ∈ l, (m.1 = Role.system ∨ m.1 = Role.user ∨ m.1 = Role.assistant) →
+      Held (l.foldl (legacyStep 2 t) st) m.2) := by
+  intro l
+  induction l with
+  | nil => intro st ho; exact ⟨ho, fun _ h => h, fun m hm => by simp at hm⟩
+  | cons a l ih =>
+    intro st ho
+    obtain ⟨s1, s2, s3⟩ := step_join_inv hr st a ho
+    obtain ⟨i1, i2, i3⟩ := ih _ s1
+    simp only [List.foldl_cons]
+    refine ⟨i1, fun c hc => i2 c (s2 c hc), ?_⟩
+    intro m hm hrole
+    rcases List.mem_cons.mp hm with h | h
+    · subst h; exact i2 _ (s3 hrole)
+    · exact i3 m h hrole
+
+/-- **The join-repaired legacy path loses nothing**: for a legacy template that renders its
+    three fields (also after the `.Response` cut), the prompt contains the content of every
+    system/user/assistant message it is given — whatever lies between them. -/
+theorem legacy_join_nothing_lost (t t' : List Node) (efix cut : Bool)
+    (hmsg : nodesMention Fld.messages t = false) (hcut : cutList efix t false = .ok cut t')
+    (hr : Renders t) (hr' : Renders t') (msgs : List RMsg) (m : RMsg) (hm : m ∈ msgs)
+    (hrole : m.1 = Role.system ∨ m.1 = Role.user ∨ m.1 = Role.assistant) :
+    ∃ b, execute ⟨2, efix⟩ t msgs = .ok b ∧ m.2 <:+: b := by
+  obtain ⟨g, hg, hg1, hg2⟩ := collateMsgs_infix msgs m hm
+  obtain ⟨⟨o, ho⟩, _, f3⟩ := fold_join_inv hr (collateMsgs msgs) ⟨[], [], [], .ok []⟩ ⟨[], rfl⟩
+  have hheld := f3 g hg (by rw [hg1]; exact hrole)
+  obtain ⟨b, hb, hs, hp, hre⟩ := hr' (List.foldl (legacyStep 2 t) ⟨[], [], [], .ok []⟩ (collateMsgs msgs)).sys
+    (List.foldl (legacyStep 2 t) ⟨[], [], [], .ok []⟩ (collateMsgs msgs)).prompt
+    (List.foldl (legacyStep 2 t) ⟨[], [], [], .ok []⟩ (collateMsgs msgs)).resp
+  refine ⟨o ++ b, ?_, ?_⟩
+  · simp only [execute, collate, hmsg, Bool.false_eq_true, if_false, ho, hcut, hb, XOut.append]
+  · rcases hheld with ⟨o', ho', hc⟩ | hc | hc | hc
+    · rw [ho] at ho'; injection ho' with ho'; subst ho'
+      exact inf_right _ (hg2.trans hc)
+    · exact inf_left _ ((hg2.trans hc).trans hs)
+    · exact inf_left _ ((hg2.trans hc).trans hp)
+    · exact inf_left _ ((hg2.trans hc).trans hre)
+
+
 end OllamaVerif.Prompt
